@@ -170,6 +170,14 @@ func (l *LSTM) Apply(inputs []tensor.Tensor) ([]tensor.Tensor, error) {
 			return nil, err
 		}
 
+		// With input_forget the input and forget gates are coupled: ft = 1 - it.
+		if l.inputForget {
+			ft, err = tensor.Sub(ops.OnesTensor(it), it)
+			if err != nil {
+				return nil, err
+			}
+		}
+
 		ct, err := l.gateCalculation(Xt, Wc, Wbc, Ht, Rc, Rbc, nil, nil, gActivation)
 		if err != nil {
 			return nil, err
